@@ -15,6 +15,7 @@ func init() {
 			ma := newMergeAnalysis(c)
 			ma.collectPairs()
 			ma.ruleR8(c)
+			ma.ruleR8u(c)
 			ma.ruleR9(c)
 			ma.ruleR7f(c)
 			ruleR9m(c)
@@ -616,4 +617,76 @@ func isDirectElem(v ssa.Value) bool {
 		return ok
 	}
 	return false
+}
+
+// ---------------------------------------------------------------- R8u: no claim under a marker's name
+
+// purgedOfMarked: coll is a plugin-supplied map from which every removal-marked key was deleted by a loop
+// over that same map that is over before block b runs.
+func (mf *mergeFn) purgedOfMarked(coll ssa.Value, b *ssa.BasicBlock) bool {
+	for _, ci := range calls(mf.fn) {
+		call, ok := ci.(*ssa.Call)
+		if !ok {
+			continue
+		}
+		bi, ok := call.Call.Value.(*ssa.Builtin)
+		if !ok || bi.Name() != "delete" || call.Call.Args[0] != coll {
+			continue
+		}
+		key := call.Call.Args[1]
+		if c2, isKey := rangeOf(key); c2 != coll || !isKey {
+			continue
+		}
+		if mf.markedPol(key, call.Block()) != 1 {
+			continue
+		}
+		// the purge loop is finished before b: its header's exit dominates b and b is outside the loop
+		hdr := loopHeader(call.Block())
+		if hdr == nil || canReach(b, hdr) {
+			continue
+		}
+		if hdr.Dominates(b) {
+			return true
+		}
+	}
+	return false
+}
+
+// ruleR8u: what is claimed is an item, never a removal marker.
+func (ma *mergeAnalysis) ruleR8u(c *Ctx) {
+	c.rule("R8u", "no claim under a marker's name: in every merge function that interprets removal markers, the key of every keyed claim is known not to be removal-marked where the claim runs (the marker test failed for it, it comes from the part of the split that holds the sets, or the marked keys were deleted from the plugin's map by a loop that is over) — a claimed marker is a phantom item that nothing releases, and the next plugin removing the same key collides with it", 4)
+	for _, mf := range ma.fns {
+		hasMarked := false
+		for _, ci := range calls(mf.fn) {
+			if call, ok := ci.(*ssa.Call); ok {
+				if _, ok := mf.isMarkedTest(call); ok {
+					hasMarked = true
+				}
+			}
+		}
+		if !hasMarked {
+			continue
+		}
+		ord := map[string]int{}
+		for _, cc := range mf.claims {
+			if cc.key == nil {
+				continue
+			}
+			base := mf.fn.Name() + "/" + cc.name()
+			ord[base]++
+			key := base
+			if ord[base] > 1 {
+				key = fmt.Sprintf("%s#%d", base, ord[base])
+			}
+			b := cc.call.Block()
+			okU := mf.elemMarked(cc.key, b) == -1
+			if !okU {
+				if coll, _ := rangeOf(cc.key); coll != nil && mf.purgedOfMarked(coll, b) {
+					okU = true
+				}
+			}
+			c.ok("R8u", key, cc.call.Pos(), okU, fmt.Sprintf("%s in %s claims a key that is not a removal marker", cc.name(), mf.fn.Name()),
+				"the key claimed here can be a removal marker ('-key'): the plugin that removes an item becomes the owner of a phantom item named like the marker, which nothing ever releases, so a second plugin removing (or removing and re-setting) the same key is refused as a conflict")
+		}
+	}
 }
